@@ -58,6 +58,12 @@ def median(array, width=None, axis=None, even=False):
         else:
             return np.median(array, axis=axis)
     else:
+        if not array.dtype.isnative:
+            #
+            # scipy.signal.medfilt() refuses arrays in non-native byte
+            # order (FITS images are big-endian).
+            #
+            array = array.astype(array.dtype.newbyteorder('='))
         if array.ndim == 1:
             medarray = medfilt(array, min(width, array.size))
             istart = int((width - 1)/2)
